@@ -198,6 +198,7 @@ def one_case(ctx, ge, alg, regs, cfg, name, op):
         ctx.count('pattern_already_cached_by_earlier_composite')
     ctx.count('op_' + op)
     ctx.case(cid)
+    ctx.distinct('operator_key_pattern_pairs_observed', (name, op, [list(k) for k in keysets]))
     if ctx.evaluations % 40 == 1:
         ctx.sample({'config': name, 'op': op, 'keys': [list(k) for k in keysets], 'first_call_events': d, 'first_call_cache_growth': growth})
     kinds = list(KINDS)
